@@ -288,7 +288,30 @@ func (fv *FuncVC) execAlloc(a *ssa.Alloc) {
 	// zero-initialise
 	p := fv.placeFromPointer(v)
 	fv.storePlace(p, &Val{T: fv.g.sorts.zero(t), Typ: t})
+	fv.initOnceFields(p, t, 0)
 	fv.allocInit(t, v)
+}
+
+// initOnceFields: the sync.Once values inside a freshly allocated object have not fired.
+func (fv *FuncVC) initOnceFields(p *Place, t types.Type, depth int) {
+	if depth > 4 {
+		return
+	}
+	if n, ok := t.(*types.Named); ok && n.Obj().Pkg() != nil && n.Obj().Pkg().Path() == "sync" && n.Obj().Name() == "Once" {
+		id := fv.placeToValue(p, types.NewPointer(t))
+		fv.heapSet("ONCE", "(Array Int Bool)", "(store "+fv.heapGet("ONCE", "(Array Int Bool)")+" "+id+" false)")
+		return
+	}
+	st, ok := t.Underlying().(*types.Struct)
+	if !ok {
+		return
+	}
+	for i := 0; i < st.NumFields(); i++ {
+		ft := st.Field(i).Type()
+		if _, isStruct := ft.Underlying().(*types.Struct); isStruct {
+			fv.initOnceFields(fv.fieldPlace(p, i), ft, depth+1)
+		}
+	}
 }
 
 // allocInit runs the ghost initialisation declared for objects of type t (//@ allocinit).
